@@ -2,45 +2,56 @@
    assembled from the per-operation theorems, plus corollaries. *)
 From Coq Require Import List ZArith Bool Arith Lia Permutation.
 From NT Require Import Sx Rose ListFacts RoseFacts Surgery SurgeryFacts Machine WF MachineFacts
-  PreserveSteps PreserveOps PreserveSort PreserveCopy PreserveMore.
+  PreserveSteps PreserveOps PreserveSort PreserveCopy PreserveMore PreserveRelabel PreserveKeepClones.
 Import ListNotations.
 
-(* operations whose preservation proof is closed *)
-Definition covered (o : op) : bool :=
-  match o with
-  | OSetData _ _ _ _ _ | ORename _ _ _ => false
-  | ORemove _ _ keep wc => negb (keep && wc)
-  | _ => true
-  end.
-
-Theorem WFw_step_partial w o : covered o = true -> WFw w -> WFw (snd (step w o)).
+Theorem WFx_step w o : WFw w -> WFx w (snd (step w o)).
 Proof.
-  intros C H. destruct o; cbn [step]; try discriminate C.
-  - now apply WFw_op_add.
-  - now apply WFw_op_shortcut.
-  - now apply WFw_op_add_node.
-  - now apply WFw_op_add_tree.
-  - now apply WFw_op_copy_to.
-  - now apply WFw_op_tree_copy.
-  - now apply WFw_op_node_copy.
-  - now apply WFw_op_move.
-  - apply WFw_op_remove; [assumption|]. cbn [covered] in C. now apply negb_true_iff in C.
-  - now apply WFw_op_remove_children.
-  - now apply WFw_op_sort.
-  - now apply WFw_op_meta.
-  - now apply (WFw_new_tree w is_typed c).
-  - now apply WFw_op_clear.
-  - now apply WFw_op_del.
-  - now apply WFw_op_filter.
-  - now apply WFw_op_from_dict.
-  - now apply WFw_op_tree_from_dict.
+  intros H. destruct o; cbn [step].
+  - now apply WFx_op_add.
+  - now apply WFx_op_shortcut.
+  - now apply WFx_op_add_node.
+  - now apply WFx_op_add_tree.
+  - now apply WFx_op_copy_to.
+  - now apply WFx_op_tree_copy.
+  - now apply WFx_op_node_copy.
+  - now apply WFx_op_move.
+  - now apply WFx_op_remove_full.
+  - now apply WFx_op_remove_children.
+  - now apply WFx_op_sort.
+  - now apply WFx_op_set_data.
+  - now apply WFx_op_rename.
+  - now apply WFx_op_meta.
+  - now apply (PreserveCopy_WFx_new_empty w is_typed c).
+  - now apply WFx_op_clear.
+  - now apply WFx_op_del.
+  - now apply WFx_op_filter.
+  - now apply WFx_op_from_dict.
+  - now apply WFx_op_tree_from_dict.
 Qed.
 
-Theorem WFw_run_partial ops : forall w, forallb covered ops = true -> WFw w -> WFw (run ops w).
+Theorem WFw_step w o : WFw w -> WFw (snd (step w o)).
+Proof. intros H. exact (proj1 (WFx_step w o H)). Qed.
+
+Theorem WFx_run ops : forall w, WFw w -> WFx w (run ops w).
 Proof.
-  induction ops as [|o ops IH]; intros w C H; [exact H|]. cbn [forallb] in C. apply andb_true_iff in C. destruct C as [C1 C2].
-  unfold run. cbn [fold_left]. apply IH; [assumption|]. now apply WFw_step_partial.
+  induction ops as [|o ops IH]; intros w H; [exact (WFx_refl w H)|].
+  unfold run. cbn [fold_left]. assert (X := WFx_step w o H). exact (WFx_trans _ _ _ X (IH _ (proj1 X))).
 Qed.
+
+Theorem WFw_run ops : forall w, WFw w -> WFw (run ops w).
+Proof. intros w H. exact (proj1 (WFx_run ops w H)). Qed.
+
+(* identities are never reused: a node that is not in the world now (removed, or never created with
+   an identity below the allocator) is in no later world of the history *)
+Theorem never_comes_back ops w m : WFw w -> m < next w -> ~ In m (all_ids w) -> ~ In m (all_ids (run ops w)).
+Proof.
+  intros H L N Y. destruct (WFx_run ops w H) as (_ & _ & F). destruct (F m Y) as [X|X]; [contradiction|lia].
+Qed.
+
+(* every state along a history *)
+Theorem WFw_trace ops : forall w, WFw w -> forall k, WFw (run (firstn k ops) w).
+Proof. intros w H k. now apply WFw_run. Qed.
 
 (* ---- corollaries spelled out from WF ---- *)
 Lemma WF_count t : WF t -> length (reg t) = length (ids (forest_of t)) /\ length (ids (forest_of t)) = size_f (forest_of t).
@@ -94,4 +105,217 @@ Proof.
   assert (ND : NoDup (ids ch ++ ids (upd_ch pq (fun _ => []) (forest_of t)))) by (apply (Permutation_NoDup W2), Wt).
   intros m Hm. assert (X : ~ In m (ids (upd_ch pq (fun _ => []) (forest_of t)))) by (intros Y; apply (NoDup_app_disj _ _ m ND Hm Y)).
   split; [assumption|]. intros Y. apply X. apply (Permutation_in _ (wf_reg _ W1) Y).
+Qed.
+
+(* ---- derived parent pointers (hold by construction of the model; stated for the record) ---- *)
+Theorem parent_total_unique t n : WF t -> In n (ids (forest_of t)) ->
+  exists p ch, parent_of n (forest_of t) = Some p /\ (p = 0 \/ In p (ids (forest_of t))) /\ p <> n /\
+               children_of p (forest_of t) = Some ch /\ In n (map rid ch) /\ NoDup (map rid ch).
+Proof.
+  intros H Hn. set (f := forest_of t) in *. assert (ND := wf_nodup t H). assert (Z := wf_pos t H). fold f in ND, Z.
+  destruct (parent_of n f) as [p|] eqn:Pp.
+  2:{ exfalso. apply (proj2 parent_in_complete f n 0 Pp Hn). }
+  assert (Row := Pp). apply (parent_of_rows n f p ND) in Row. destruct Row as (inf & Row).
+  assert (Hp : p = 0 \/ In p (ids f)) by (destruct (rows_par f 0 _ Row) as [E|E]; [left; exact E|right; exact E]).
+  assert (Gc : exists pq ch, parent_path p f = Some pq /\ get_ch pq f = Some ch).
+  { unfold parent_path. destruct (Nat.eqb p 0) eqn:E0; [exists [], f; now split|].
+    apply Nat.eqb_neq in E0. destruct Hp as [Hp|Hp]; [contradiction|].
+    destruct (node_path_complete p f Hp) as (pq & Gp). exists pq.
+    assert (Gp' : parent_path p f = Some pq) by (unfold parent_path; apply Nat.eqb_neq in E0; now rewrite E0).
+    destruct (parent_path_get p f pq Gp') as (ch & G). now exists ch. }
+  destruct Gc as (pq & ch & Gp & G). exists p, ch.
+  rewrite <- (parent_path_owner p f pq ch Gp G) in Row.
+  destruct (rows_owner_member pq f ch n inf ND Z G Row) as (x & Hx & Rx & _).
+  refine (conj eq_refl (conj Hp (conj _ (conj _ (conj _ _))))).
+  - intros ->. destruct Hp as [->|_]; [contradiction|].
+    (* node n would be its own child *)
+    assert (Px : In x (pre_f f)) by (apply (get_ch_pre pq f ch G); now apply in_pre_f_top).
+    destruct (parent_path_spec n f pq ch 0 Gp G) as [(E0 & _)|(_ & s & Ps & Rs & Cs & _)]; [apply Z; rewrite <- E0; exact Hn|].
+    assert (x = s) by (apply (node_unique f); auto; congruence). subst x. subst ch.
+    assert (NS := NoDup_ids_sub f s ND Ps). rewrite ids_t_unfold in NS. inversion NS as [|y l N1 N2]; subst.
+    apply N1. now apply incl_top_ids, in_map.
+  - unfold children_of. now rewrite Gp.
+  - rewrite <- Rx. now apply in_map.
+  - apply NoDup_ids_top. now apply (NoDup_child_list pq f ch).
+Qed.
+
+(* no node belongs to two trees *)
+Lemma NoDup_flat_map_disj {X Y} (g : X -> list Y) : forall l i j a b y,
+  NoDup (flat_map g l) -> nth_error l i = Some a -> nth_error l j = Some b -> i <> j -> In y (g a) -> ~ In y (g b).
+Proof.
+  induction l as [|x l IH]; intros i j a b y ND Hi Hj Ne Ha Hb; [destruct i; discriminate|].
+  cbn [flat_map] in ND. destruct i as [|i]; destruct j as [|j]; cbn in Hi, Hj.
+  - contradiction.
+  - injection Hi as ->. apply (NoDup_app_disj _ _ y ND Ha). apply in_flat_map. exists b. split; [now apply nth_error_In in Hj|assumption].
+  - injection Hj as ->. apply (NoDup_app_disj _ _ y ND Hb). apply in_flat_map. exists a. split; [now apply nth_error_In in Hi|assumption].
+  - apply (IH i j a b y (NoDup_app_r _ _ ND) Hi Hj); auto.
+Qed.
+
+Theorem trees_disjoint w i j ti tj n : WFw w -> i <> j -> get_tree w i = Some ti -> get_tree w j = Some tj ->
+  In n (ids (forest_of ti)) -> ~ In n (ids (forest_of tj)).
+Proof.
+  intros H Ne Gi Gj Hn. apply (NoDup_flat_map_disj (fun t => ids (forest_of t)) (trees w) i j ti tj n); auto. apply H.
+Qed.
+
+(* remove(keep_children=True) of a single node: the node is gone, its children stay *)
+Theorem removed_keep_gone w ti n t s :
+  WFw w -> get_tree w ti = Some t -> get_node n (forest_of t) = Some s ->
+  fst (op_remove w ti n true false) = Ok [] ->
+  exists t', get_tree (snd (op_remove w ti n true false)) ti = Some t' /\
+             ~ In n (ids (forest_of t')) /\ ~ In n (reg t') /\
+             forall m, In m (ids (forest_of t)) -> m <> n -> In m (ids (forest_of t')).
+Proof.
+  intros H Gt Gn. assert (Wt := WFw_tree w ti t H Gt). unfold op_remove. rewrite Gt. unfold did_of. rewrite Gn. cbn [option_map andb existsb].
+  rewrite orb_false_r. destruct (keep_collides_all t [n] n) eqn:Col; [discriminate|]. intros _.
+  apply keep_all_single in Col; [|apply Wt]. cbn [fold_left snd].
+  destruct (get_node_spec n _ s Gn) as (Ps & Rs).
+  rewrite live_true by (rewrite <- Rs; unfold ids; now apply in_map). cbn [remove_one].
+  destruct (remove_keep t n) as [a|] eqn:Rk.
+  2:{ exfalso. unfold remove_keep in Rk. destruct (get_node_loc n _ s Gn) as (q0 & i & l & E & N). now rewrite E, N in Rk. }
+  destruct (WF_remove_keep t n a Wt Col Rk) as (Wa & P).
+  exists a. split; [now apply (get_put_tree w ti t)|].
+  assert (ND : NoDup (n :: ids (forest_of a))) by (apply (Permutation_NoDup P), Wt). inversion ND as [|x l N1 N2]; subst.
+  refine (conj N1 (conj _ _)).
+  - intros Y. apply N1. apply (Permutation_in _ (wf_reg a Wa) Y).
+  - intros m Hm Nm. apply (Permutation_in _ P) in Hm. destruct Hm as [E|Hm]; [exfalso; apply Nm; now symmetry|assumption].
+Qed.
+
+(* remove(with_clones=True): every clone (and its branch root) is gone *)
+Lemma remove_branch_complete t v : WF t -> In v (ids (forest_of t)) -> exists a, remove_branch t v = Some a.
+Proof.
+  intros H Hv. destruct (get_node_complete v _ Hv) as (s & Gs). destruct (get_node_loc v _ s Gs) as (q0 & i & l & E & N).
+  unfold remove_branch, detach. rewrite E, N. destruct (unregister_all _ _ _). eexists. reflexivity.
+Qed.
+
+Lemma remove_fold_gone vs : forall t, WF t ->
+  let t' := fold_left (fun acc v => if live acc v
+                                     then match remove_one acc v false with Some a => a | None => acc end
+                                     else acc) vs t in
+  forall v, In v vs -> ~ In v (ids (forest_of t')).
+Proof.
+  induction vs as [|u vs IH]; intros t H t' v Hv; [contradiction|]. cbn [fold_left] in t'.
+  destruct Hv as [->|Hv]; [|unfold t'; destruct (live t u); [cbn [remove_one]; destruct (remove_branch t u) as [a|] eqn:E|];
+                                try (now apply IH); apply IH; [|assumption]; now destruct (WF_remove_branch t u a H E)].
+  unfold t'. destruct (live t v) eqn:L.
+  - cbn [remove_one]. assert (Hin : In v (ids (forest_of t))).
+    { unfold live in L. apply existsb_exists in L. destruct L as (m & Hm & E). apply Nat.eqb_eq in E. now subst. }
+    destruct (remove_branch_complete t v H Hin) as (a & E). rewrite E.
+    destruct (WF_remove_branch t v a H E) as (Wa & s & Ps & Rs & P).
+    destruct (remove_fold_branch vs a Wa) as (_ & I). intros Y. apply I in Y.
+    assert (ND : NoDup (ids_t s ++ ids (forest_of a))) by (apply (Permutation_NoDup P), H).
+    apply (NoDup_app_disj _ _ v ND); [|assumption]. rewrite ids_t_unfold, Rs. now left.
+  - destruct (remove_fold_branch vs t H) as (_ & I). intros Y. apply I in Y.
+    assert (X : live t v = true) by (now apply live_true). congruence.
+Qed.
+
+Theorem removed_clones_gone w ti n t d :
+  WFw w -> get_tree w ti = Some t -> did_of n (forest_of t) = Some d ->
+  exists t', get_tree (snd (op_remove w ti n false true)) ti = Some t' /\
+             forall c, In c (idx_get d (idx t)) -> ~ In c (ids (forest_of t')) /\ ~ In c (reg t').
+Proof.
+  intros H Gt Dn. assert (Wt := WFw_tree w ti t H Gt). unfold op_remove. rewrite Gt, Dn. cbn [andb snd].
+  set (vs := filter (fun c => negb (Nat.eqb c n)) (idx_get d (idx t)) ++ [n]).
+  destruct (remove_fold_branch vs t Wt) as (W' & _). assert (Gone := remove_fold_gone vs t Wt).
+  eexists. split; [now apply (get_put_tree w ti t)|]. intros c Hc.
+  assert (Hv : In c vs).
+  { unfold vs. destruct (Nat.eq_dec c n) as [->|Nc]; [apply in_or_app; right; now left|]. apply in_or_app. left.
+    apply filter_In. split; [assumption|]. apply negb_true_iff. now apply Nat.eqb_neq. }
+  specialize (Gone c Hv). split; [exact Gone|]. intros Y. apply Gone. apply (Permutation_in _ (wf_reg _ W') Y).
+Qed.
+
+(* what is not reachable is neither registered nor indexed (any tree state satisfying WF) *)
+Theorem unreachable_uncounted t n : WF t -> ~ In n (ids (forest_of t)) ->
+  ~ In n (reg t) /\ forall d, ~ In n (idx_get d (idx t)).
+Proof.
+  intros H Hn. split.
+  - intros Y. apply Hn. apply (Permutation_in _ (wf_reg t H) Y).
+  - intros d Y. apply (idx_get_keys t n d H) in Y. apply Hn. rewrite <- (keys_fst (forest_of t)).
+    change n with (fst (n, d)). now apply in_map.
+Qed.
+
+(* clear(): nothing is left *)
+Theorem cleared_gone w ti t :
+  WFw w -> get_tree w ti = Some t ->
+  exists t', get_tree (snd (op_clear w ti)) ti = Some t' /\ forest_of t' = [] /\ reg t' = [] /\ idx t' = [].
+Proof.
+  intros H Gt. assert (Wt := WFw_tree w ti t H Gt).
+  assert (W' := WFw_op_clear w ti H). unfold op_clear, op_remove_children in *. rewrite Gt in *. cbn [parent_path Nat.eqb get_ch] in *.
+  rewrite unregister_all_eq in *. cbn [snd] in *.
+  eexists. split; [now apply (get_put_tree w ti t)|]. cbn [forest_of set_all reg idx upd_ch].
+  match goal with |- _ /\ ?r = [] /\ ?ix = [] => set (r' := r); set (ix' := ix) end.
+  assert (Wt' : WF (set_all t [] r' ix')).
+  { apply (WFw_tree _ ti _ W'). now apply (get_put_tree w ti t). }
+  refine (conj eq_refl (conj _ _)).
+  - assert (P := wf_reg _ Wt'). cbn in P. apply Permutation_sym in P. now apply Permutation_nil in P.
+  - assert (P := wf_idx _ Wt'). cbn in P. assert (Ne := wf_ine _ Wt'). cbn [idx set_all] in *.
+    destruct ix' as [|e ix0]; [reflexivity|]. exfalso. inversion Ne as [|x l N1 N2]; subst.
+    destruct (snd e) as [|m l0] eqn:E; [contradiction|]. apply Permutation_sym in P. apply Permutation_nil in P. unfold idx_flat in P. cbn in P. rewrite E in P. discriminate.
+Qed.
+
+Lemma not_in_put w ti t t' m : WFw w -> get_tree w ti = Some t -> In m (ids (forest_of t)) ->
+  ~ In m (ids (forest_of t')) -> ~ In m (all_ids (put_tree w ti t')).
+Proof.
+  intros H G Hm Nm. unfold get_tree in G. destruct (nth_error_split _ _ G) as (a & b & E & <-).
+  assert (ND := ww_disj w H). destruct w as [ts nw]. cbn [trees next] in *. subst ts.
+  unfold put_tree. cbn [trees next]. rewrite upd_nth_split, all_ids_split. rewrite all_ids_split in ND.
+  intros Y. apply in_app_or in Y. destruct Y as [Y|Y].
+  - apply (NoDup_app_disj _ _ m ND Y). apply in_or_app. now left.
+  - apply in_app_or in Y. destruct Y as [Y|Y]; [contradiction|].
+    apply NoDup_app_r in ND. apply (NoDup_app_disj _ _ m ND Hm Y).
+Qed.
+
+(* a removed branch is absent from every later state of every continuation of the history *)
+Theorem removed_never_returns w ti n t s ops :
+  WFw w -> get_tree w ti = Some t -> get_node n (forest_of t) = Some s ->
+  forall m, In m (ids_t s) -> ~ In m (all_ids (run ops (snd (op_remove w ti n false false)))).
+Proof.
+  intros H Gt Gn m Hm. assert (Wt := WFw_tree w ti t H Gt).
+  destruct (get_node_spec n _ s Gn) as (Ps & Rs).
+  assert (Hmt : In m (ids (forest_of t))).
+  { destruct (pre_f_segment _ s Ps) as (a & b & E). unfold ids. rewrite E, !map_app. apply in_or_app. right. apply in_or_app. now left. }
+  assert (L : m < next w) by (apply (WFw_tree_lt w ti t m H Gt Hmt)).
+  assert (X := WFx_op_remove_full w ti n false false H).
+  apply never_comes_back; [apply X|destruct X as (_ & L2 & _); lia|].
+  (* absent right after the removal *)
+  destruct (removed_branch_gone w ti n t s H Gt Gn) as (t' & G' & _ & Gone).
+  revert G' X. unfold op_remove. rewrite Gt. unfold did_of. rewrite Gn. cbn [option_map andb snd].
+  intros G' _. match goal with |- ~ In m (all_ids (put_tree w ti ?a)) => set (a' := a) in * end.
+  assert (a' = t') by (rewrite (get_put_tree w ti t a' Gt) in G'; now injection G'). subst t'.
+  apply (not_in_put w ti t a' m H Gt Hmt). now apply Gone.
+Qed.
+
+(* del tree[key]: the node found by the key and its branch are gone *)
+Theorem deleted_gone w ti k t n s :
+  WFw w -> get_tree w ti = Some t -> getitem t k = Some [n] -> get_node n (forest_of t) = Some s ->
+  exists t', get_tree (snd (op_del w ti k)) ti = Some t' /\ fst (op_del w ti k) = Ok [] /\
+    forall m, In m (ids_t s) -> ~ In m (ids (forest_of t')) /\ ~ In m (reg t').
+Proof.
+  intros H Gt Gk Gn. unfold op_del. rewrite Gt, Gk. now apply (removed_branch_gone w ti n t s).
+Qed.
+
+(* filter(): every branch the predicate rejected is gone *)
+Lemma apply_facts_gone acts : forall t, WF t -> forall v, In (FBranch v) acts ->
+  ~ In v (ids (forest_of (fold_left apply_fact acts t))).
+Proof.
+  induction acts as [|a acts IH]; intros t H v Hv; [contradiction|]. cbn [fold_left].
+  destruct (WF_apply_fact t a H) as (W1 & I1). destruct Hv as [->|Hv]; [|now apply IH].
+  destruct (WF_apply_facts acts _ W1) as (_ & I2). intros Y. apply I2 in Y. revert Y. cbn [apply_fact].
+  destruct (in_dec Nat.eq_dec v (ids (forest_of t))) as [Hin|Hin].
+  - destruct (remove_branch_complete t v H Hin) as (a' & E). rewrite E.
+    destruct (WF_remove_branch t v a' H E) as (Wa & s & Ps & Rs & P).
+    assert (ND : NoDup (ids_t s ++ ids (forest_of a'))) by (apply (Permutation_NoDup P), H).
+    intros Y. apply (NoDup_app_disj _ _ v ND); [|assumption]. rewrite ids_t_unfold, Rs. now left.
+  - intros Y. apply Hin. cbn [apply_fact] in I1. now apply I1.
+Qed.
+
+Theorem filtered_gone w ti n vd t ch must acts stopped failed :
+  WFw w -> get_tree w ti = Some t -> children_of n (forest_of t) = Some ch ->
+  fvisit vd (T 0 dummy_info ch) false = (must, acts, stopped, failed) ->
+  exists t', get_tree (snd (op_filter w ti n vd)) ti = Some t' /\
+    forall v, In (FBranch v) acts -> ~ In v (ids (forest_of t')) /\ ~ In v (reg t').
+Proof.
+  intros H Gt Gc Fv. assert (Wt := WFw_tree w ti t H Gt). unfold op_filter. rewrite Gt, Gc, Fv. cbn [snd].
+  eexists. split; [now apply (get_put_tree w ti t)|]. intros v Hv.
+  destruct (WF_apply_facts acts t Wt) as (W' & _). assert (G := apply_facts_gone acts t Wt v Hv).
+  split; [exact G|]. intros Y. apply G. apply (Permutation_in _ (wf_reg _ W') Y).
 Qed.
